@@ -1,6 +1,200 @@
-"""engine K (placeholder, replaced below)"""
-TRUSTED = []
+"""engine K: Kani on a scratch copy of the real crate with harness modules attached by #[path].
+
+Groups (see GROUPS): each names the source file that gets the `mod` line (so the harness sees private
+items), the harness file under /verif/kani, the harnesses, and whether they are complete
+(loop-free, full-domain symbolic inputs) or bounded stand-ins.
+Every assertion message starts with `[<obligation id> <props...>]`.
+"""
+import os
+import re
+import shutil
+import subprocess
+import time
+
+HERE = os.path.dirname(os.path.abspath(__file__))
+KANI_DIR = os.path.join(HERE, '..', 'kani')
+
+GROUPS = {
+    'metrics': dict(attach='src/metrics.rs', file='metrics_harness.rs', module='metrics::verif_kani_metrics', bounded=False,
+                    harnesses=['metrics_action_received', 'metrics_action_dropped', 'metrics_action_executed', 'metrics_action_reduced',
+                               'metrics_effect_issued', 'metrics_effect_executed', 'metrics_middleware_executed', 'metrics_state_notified',
+                               'metrics_subscriber_notified', 'metrics_queue_size', 'metrics_error_occurred', 'metrics_snapshot_copies'],
+                    timeout=(300, 900)),
+    'lock': dict(attach='src/store_impl.rs', file='lock_harness.rs', module='store_impl::verif_kani_lock', bounded=False,
+                 harnesses=['lock_dispatch', 'lock_dispatcher_dispatch', 'lock_close', 'lock_stop_twice'], timeout=(420, 1200)),
+    'selector': dict(attach='src/subscriber.rs', file='selector_harness.rs', module='subscriber::verif_kani_selector', bounded=False,
+                     harnesses=['selector_step'], timeout=(300, 900)),
+    'unsubscribe': dict(attach='src/store_impl.rs', file='unsubscribe_harness.rs', module='store_impl::verif_kani_unsubscribe', bounded=True,
+                        bound='2 registered subscribers, unwind 4', harnesses=['unsubscribe_removes_exactly_target'], timeout=(600, 1800)),
+}
+
+TRUSTED = [
+    'kani: SenderChannel::send replaced by a checker of its precondition (lock held) in the lock harnesses',
+    'kani: std::time::Instant::now and std::mem::drop stubbed in the close/stop harnesses (clock_gettime unsupported; freeing the crossbeam channel is dependency-internal)',
+    'kani: State = Action = Output = u8 (parametricity, A8)',
+    'kani: atomics treated as sequential operations; counters assumed <= usize::MAX/2',
+]
 
 
-def run_harnesses(repo, names, tier, work, seed):
-    return []
+class Harness:
+    def __init__(self, group, name, cfg):
+        self.group = group
+        self.name = name
+        self.module = cfg['module']
+        self.target = cfg['attach']
+        self.bounded = cfg['bounded']
+        self.bound = cfg.get('bound')
+        self.status = 'undecided'
+        self.reason = 'not run'
+        self.obligations = []
+        self.failed_obligations = []
+        self.time_s = None
+        self.cmd = ''
+        self.checks = None
+
+    def summary(self):
+        return dict(harness=self.module + '::' + self.name, status=self.status, reason=self.reason if self.status == 'undecided' else '',
+                    bounded=self.bounded, bound=self.bound, obligations=len(self.obligations), failed=[o['id'] for o in self.failed_obligations],
+                    cbmc_time_s=self.time_s, cmd=self.cmd, checks=self.checks)
+
+
+def parse_obligations(path):
+    """obligations declared by a harness file: fn name -> list of dict(id, props, text)"""
+    text = open(path, encoding='utf-8').read()
+    out = {}
+    # split by #[kani::proof] functions
+    for m in re.finditer(r'#\[kani::proof\](?:\s*#\[[^\]]*\])*\s*fn\s+(\w+)\s*\(\)\s*\{', text):
+        name = m.group(1)
+        start = m.end()
+        nxt = text.find('#[kani::proof]', start)
+        body = text[start:nxt if nxt > 0 else len(text)]
+        obs = []
+        for a in re.finditer(r'"\[(O-[\w-]+)((?:\s+C\d+)*)\]\s*([^"]*)"', body):
+            obs.append(dict(id=a.group(1), props=a.group(2).split(), text=a.group(3)))
+        out[name] = obs
+    # assertions inside macros used by several harnesses
+    macro_obs = []
+    for mm in re.finditer(r'macro_rules!\s*(\w+)\s*\{(.*?)\n\}', text, re.S):
+        for a in re.finditer(r'"\[(O-[\w-]+)((?:\s+C\d+)*)\]\s*([^"]*)"', mm.group(2)):
+            macro_obs.append((mm.group(1), dict(id=a.group(1), props=a.group(2).split(), text=a.group(3))))
+    for name in out:
+        m = re.search(r'fn\s+' + name + r'\s*\(\)\s*\{', text)
+        nxt = text.find('#[kani::proof]', m.end())
+        body = text[m.end():nxt if nxt > 0 else len(text)]
+        for mac, ob in macro_obs:
+            if re.search(r'\b' + mac + r'!\s*\(', body):
+                out[name].append(ob)
+    return out
+
+
+def run_harnesses(repo, groups, tier, work, seed):
+    res = []
+    scratch = os.path.join(work, 'kani_src')
+    os.makedirs(scratch)
+    # scratch copy of the working tree (never /repo itself)
+    subprocess.run(['rsync', '-a', '--exclude', 'target', '--exclude', '.git', repo.rstrip('/') + '/', scratch + '/'], check=True)
+    wanted = []
+    for g in groups:
+        cfg = GROUPS[g]
+        hfile = os.path.abspath(os.path.join(KANI_DIR, cfg['file']))
+        src = os.path.join(scratch, cfg['attach'])
+        if not os.path.exists(src):
+            h = Harness(g, '*', cfg)
+            h.reason = 'lost anchor: %s is missing' % cfg['attach']
+            res.append(h)
+            continue
+        modname = cfg['module'].split('::')[-1]
+        with open(src, 'a') as fh:
+            fh.write('\n#[cfg(kani)] #[path = "%s"] mod %s;\n' % (hfile, modname))
+        obs = parse_obligations(hfile)
+        for name in cfg['harnesses']:
+            h = Harness(g, name, cfg)
+            h.obligations = obs.get(name, [])
+            wanted.append((h, cfg))
+    if not wanted:
+        return res
+    tmo = max(cfg['timeout'][0 if tier == 'quick' else 1] for (_, cfg) in wanted)
+    cmd = ['cargo', 'kani', '-Z', 'stubbing', '--exact', '--output-format', 'terse', '-j', '8']
+    for h, cfg in wanted:
+        cmd += ['--harness', cfg['module'] + '::' + h.name]
+    env = dict(os.environ, CARGO_NET_OFFLINE='true', CARGO_TARGET_DIR=os.path.join(scratch, 'target'))
+    t0 = time.time()
+    timed_out = False
+    try:
+        p = subprocess.run(cmd, cwd=scratch, env=env, capture_output=True, text=True, timeout=tmo)
+        out = p.stdout + '\n' + p.stderr
+    except subprocess.TimeoutExpired as e:
+        timed_out = True
+        out = ((e.stdout or b'').decode('utf-8', 'replace') if isinstance(e.stdout, bytes) else (e.stdout or '')) + '\n' + \
+              ((e.stderr or b'').decode('utf-8', 'replace') if isinstance(e.stderr, bytes) else (e.stderr or ''))
+        subprocess.run(['pkill', '-f', scratch], capture_output=True)
+    wall = time.time() - t0
+    cmdline = 'CARGO_NET_OFFLINE=true ' + ' '.join(cmd)
+    # split the output into per-thread blocks
+    thread_h = {}
+    blocks = {}
+    cur = None
+    for ln in out.split('\n'):
+        m = re.match(r'Thread (\d+): Checking harness (\S+?)\.\.\.', ln)
+        if m:
+            thread_h[m.group(1)] = m.group(2)
+            continue
+        m = re.match(r'Checking harness (\S+?)\.\.\.', ln)
+        if m:
+            thread_h['_'] = m.group(1)
+            cur = m.group(1)
+            blocks.setdefault(cur, [])
+            continue
+        m = re.match(r'Thread (\d+):\s*$', ln)
+        if m and m.group(1) in thread_h:
+            cur = thread_h[m.group(1)]
+            blocks.setdefault(cur, [])
+            continue
+        if cur is not None:
+            blocks[cur].append(ln)
+    compile_error = None
+    if re.search(r'^error(\[E\d+\])?:', out, re.M) and not blocks:
+        m = re.search(r'^error(\[E\d+\])?:.*$', out, re.M)
+        compile_error = m.group(0)[:300]
+    for h, cfg in wanted:
+        h.cmd = cmdline
+        full = cfg['module'] + '::' + h.name
+        blk = '\n'.join(blocks.get(full, []))
+        if compile_error:
+            h.status, h.reason = 'undecided', 'kani could not build the scratch crate: ' + compile_error
+        elif not blk:
+            h.status, h.reason = 'undecided', ('timeout after %ds' % tmo) if timed_out else 'no result block in kani output'
+        else:
+            m = re.search(r'Verification Time: ([\d.]+)s', blk)
+            if m:
+                h.time_s = float(m.group(1))
+            m = re.search(r'\*\* (\d+) of (\d+) failed', blk)
+            if m:
+                h.checks = int(m.group(2))
+            fails = re.findall(r'Failed Checks: (.*)\n', blk)
+            cover_unsat = re.search(r'\*\* 0 of \d+ cover properties satisfied', blk)
+            if 'VERIFICATION:- SUCCESSFUL' in blk:
+                if cover_unsat:
+                    h.status, h.reason = 'undecided', 'vacuity guard: the end of the harness is unreachable'
+                else:
+                    h.status, h.reason = 'ok', ''
+            elif 'VERIFICATION:- FAILED' in blk:
+                named = []
+                other = []
+                for f in fails:
+                    m = re.search(r'\[(O-[\w-]+)((?:\s+C\d+)*)\]\s*(.*)', f)
+                    if m:
+                        named.append(dict(id=m.group(1), props=m.group(2).split(), message='kani: assertion failed: ' + m.group(3).strip('" '), detail=blk[-1500:]))
+                    else:
+                        other.append(f.strip())
+                if named:
+                    h.status = 'failed'
+                    h.failed_obligations = named
+                else:
+                    # unwinding assertion, unsupported construct, arithmetic overflow in the harness...: not an alarm
+                    h.status, h.reason = 'undecided', 'kani failed on a check that is not a named obligation: ' + '; '.join(other)[:300]
+            else:
+                h.status, h.reason = 'undecided', ('timeout after %ds' % tmo) if timed_out else 'no verdict in kani output'
+        res.append(h)
+    shutil.rmtree(scratch, ignore_errors=True)
+    return res
